@@ -58,3 +58,24 @@ CHECKS["C16"] = {
                                  "tracker/dfs-schedules", "tracker/update-between-check-and-sleep", "tracker/with-cancel",
                                  "peercache/dfs-schedules", "peercache/update-between-check-and-sleep", "peercache/with-cancel"]},
 }
+
+CHECKS["C18"] = {
+    "level": "exploration",
+    "level_text": ("generated message sequences x writer variants x generated/exhaustive read chunkings with a round-trip oracle, plus generated hostile "
+                   "streams (over-limit, truncated, malformed lengths, arbitrary bytes) with error / no-panic / bounded-allocation / no-aliasing oracles"),
+    "level_note": "trusts google.golang.org/protobuf (Marshal/Unmarshal/Equal) and bufio; the allocation bound is measured with runtime.MemStats around the failing call plus the reader's retained buffer capacity",
+    "technique": "property-based testing (rapid): round-trip + negative-input oracles, exhaustive chunking enumeration for small streams",
+    "rule": ("case = (writer variant, limit, message sequence, read chunking) or (valid prefix + one bad frame) or arbitrary bytes; non-trivial = "
+             ">=2 frames read through a chunking reader that splits frames, an over-limit frame that is not the first, a bad frame after >=1 good frame, "
+             "a chunking with >1 chunk, arbitrary input >4 bytes; distinct = distinct (variant, limit, frame sizes, reader, bad prefix)"),
+    "assumptions": ["protobuf encoding is deterministic enough for proto.Equal round-trips (Equal compares decoded values)"],
+    "units": [
+        {"pkg": "pkg/protoio", "run": "^TestVerif_C18_", Q: {"timeout": 300}, T: {"timeout": 3000, "shards": 8}, "mem_gb": 6},
+    ],
+    "crash_patterns": [
+        {"re": r"fatal error: (runtime: )?(out of memory|cannot allocate memory)|runtime: out of memory|panic: runtime error: makeslice: len out of range",
+         "also": [r"protoio\.\(\*(varintReader|uint32Reader)\)\.ReadMsg"], "identity": "process-crash/alloc-beyond-limit"},
+    ],
+    "mandatory_labels": {"all": ["roundtrip/over-limit-frame-not-first", "roundtrip/multi-frame-chunked", "roundtrip/marshalTo-path", "hostile/bad-frame-not-first",
+                                 "hostile/hostile-length", "hostile/truncated", "hostile/overlong-varint", "chunking/exhaustive", "arbitrary"]},
+}
